@@ -138,6 +138,11 @@
 //!               in this engine: `t-supd` / `t-sdiscall` move the events out of RenetServer right after the call, here and
 //!               in the model, so `t-ev` only paces the reading of an already collected list.)
 //!
+//!  tp-rejoin    2-4 sessions; one or two leave (mostly NOT the one in the highest table slot), each in its own way; when they
+//!               are gone new clients (fresh token, new id) join on a spare relay slot or on a leaver's; the sessions nobody
+//!               ended keep exchanging messages all the time; traffic of everybody present, heal, `note healed` (C11: a
+//!               well-behaved client's traffic keeps flowing whatever other clients do), ends, `note settled`
+//!
 //! # Oracles (prop C20; all pure functions of (ops, outs))
 //!  tp-lockstep        (a) every t-state right after a t-supd: rc = nc, nn = |nc|, rd = [], bad = []
 //!  tp-events          (b) per id connected/disconnected alternate starting with connected, ids exist;
@@ -2081,6 +2086,101 @@ fn script_bounce(rng: &mut Rng, _tier: Tier, ex: &mut dyn FnMut(&str) -> String)
     d.settle();
 }
 
+/// profile 6: 2-4 sessions in table slots 0..n-1 exchange messages; one or two of them leave (in three cases of four NOT the
+/// one in the highest used slot: a hole in front of sessions that stay), each in its own way; once they are gone on both
+/// sides new clients (fresh token, new id) join, on a spare relay slot or on the relay slot of one that left, while the
+/// sessions nobody ended keep exchanging messages both ways; traffic of everybody who is there now, heal, `note healed`:
+/// every reliable message of every session that nobody ended has been obtained
+fn script_rejoin(rng: &mut Rng, _tier: Tier, ex: &mut dyn FnMut(&str) -> String) {
+    let tag = rng.0;
+    let n = rng.pick(&[2usize, 3, 3, 3, 4]);
+    let nslots = n + 2;
+    let maxc = n + rng.below(2) as usize;
+    // (the whole trace after the first leave is far shorter than the time-out)
+    let timeout_s = rng.pick(&[5u64, 10]);
+    let mut d = Drv::start(ex, tag, n, maxc, timeout_s, 120, nslots, &["lossless"]);
+    let dt = rng.pick(&[16_000u64, 50_000, 100_000, 250_000]);
+    for _ in 0..rng.range(4, 5) {
+        d.round_lossless(rng, dt, 1);
+    }
+    for _ in 0..rng.range(1, 3) {
+        d.round_lossless(rng, dt, 2);
+        d.reads(rng, false);
+    }
+    // who leaves
+    let mut leavers: Vec<usize> = vec![];
+    let nleave = if n > 2 && rng.chance(1, 3) { 2 } else { 1 };
+    let top_stays = rng.chance(3, 4);
+    let cands: Vec<usize> = (0..n).filter(|k| !(top_stays && *k == n - 1)).collect();
+    for _ in 0..nleave {
+        let k = rng.pick(&cands);
+        if !leavers.contains(&k) {
+            leavers.push(k);
+        }
+    }
+    for k in leavers.clone() {
+        d.disc(rng.pick(&[Disc::CDisc, Disc::CTDisc, Disc::SDisc]), k);
+        if rng.chance(1, 2) {
+            d.round_lossless(rng, dt, 1);
+        }
+    }
+    for _ in 0..3 {
+        d.round_lossless(rng, dt, 1);
+        d.reads(rng, false);
+    }
+    // who joins: never more than have left for good (the table never fills: nobody is denied)
+    let gone: Vec<usize> = leavers
+        .iter()
+        .copied()
+        .filter(|k| match d.id[*k] {
+            Some(id) => !d.st.rc.contains(&id) && !d.st.nc.contains(&id) && !d.st.rd.contains(&id) && d.st.cl.get(k).map(|c| c.1.starts_with("disc")).unwrap_or(false),
+            None => false,
+        })
+        .collect();
+    let njoin = if gone.is_empty() { 0 } else { rng.range(1, gone.len() as u64) as usize };
+    let mut spare = n;
+    for j in 0..njoin {
+        let k = if rng.chance(1, 3) {
+            gone[j]
+        } else {
+            spare += 1;
+            spare - 1
+        };
+        d.new_client(k, 201 + j as u64);
+        if rng.chance(1, 2) {
+            d.round_lossless(rng, dt, 1);
+        }
+    }
+    for _ in 0..5 {
+        d.round_lossless(rng, dt, 1);
+    }
+    for _ in 0..2 {
+        d.round_lossless(rng, dt, 2);
+        d.reads(rng, false);
+    }
+    d.events_and_state();
+    d.x("note heal-start");
+    for _ in 0..3 {
+        d.round_lossless(rng, 301_000, 0);
+    }
+    d.events_and_state();
+    d.reads(rng, true);
+    d.x("note healed");
+    for k in d.live_slots() {
+        if rng.chance(2, 3) {
+            d.disc(rng.pick(&[Disc::CDisc, Disc::CTDisc, Disc::SDisc]), k);
+            if rng.chance(1, 2) {
+                d.round_lossless(rng, dt, 1);
+            }
+        }
+    }
+    for _ in 0..4 {
+        d.round_lossless(rng, dt.max(50_000), 0);
+    }
+    d.reads(rng, true);
+    d.settle();
+}
+
 fn nontrivial(t: &Trace) -> bool {
     t.outs.iter().any(|o| o.starts_with("connected ")) && t.outs.iter().any(|o| o.starts_with("msg ") || (o.starts_with("msgs ") && !o.starts_with("msgs 0")))
 }
@@ -2136,6 +2236,17 @@ pub fn profiles() -> Vec<Profile> {
             new_world,
             script: script_churn,
             nontrivial,
+            keep: keep_cfg,
+            fixed: None,
+        },
+        Profile {
+            name: "tp-rejoin",
+            props: &["C11", "C20"],
+            cases: |t| tier_cases(t, 24, 240),
+            new_world,
+            script: script_rejoin,
+            // somebody joined after somebody else had left, and messages went on
+            nontrivial: |t| nontrivial(t) && t.ops.iter().any(|o| o.starts_with("t-cnew ")),
             keep: keep_cfg,
             fixed: None,
         },
@@ -3702,7 +3813,7 @@ pub fn oracles() -> Vec<Oracle> {
         Oracle { prop: "C20", name: "tp-stray-ignored", engines: &["tp-"], check: oracle_stray_ignored },
         Oracle { prop: "C20", name: "tp-late-replay-quiet", engines: &["tp-"], check: oracle_late_replay_quiet },
         Oracle { prop: "C20", name: "tp-disconnect-reasons", engines: &["tp-lossless"], check: oracle_disconnect_reasons },
-        Oracle { prop: "C11", name: "tp-channels", engines: &["tp-lossless"], check: oracle_channels },
+        Oracle { prop: "C11", name: "tp-channels", engines: &["tp-lossless", "tp-rejoin"], check: oracle_channels },
         Oracle { prop: "C20", name: "tp-client-status", engines: &["tp-"], check: oracle_client_status },
         Oracle { prop: "C20", name: "tp-accessors", engines: &["tp-"], check: oracle_accessors },
         Oracle { prop: "C20", name: "tp-session-events", engines: &["tp-"], check: oracle_session_events },
